@@ -74,11 +74,13 @@ def fixDeser (buf : Bytes) : Except Err (Option (Bytes × Bytes)) :=
         if (buf.length : Int) < msgLen then pure none
         else pure (some (pySliceTo buf msgLen, pySliceFrom buf msgLen))
 
-/-- `Message.get_msg_type(bytes_)` before `.decode('ascii')` -/
+/-- `Message.get_msg_type(bytes_)` before `.decode('ascii')` (after a2cfe01: the search is anchored at the start of a field) -/
 def getMsgType (b : Bytes) : Bytes :=
-  let start : Nat := match find b tag35 0 with
-    | some i => i + 2
-    | none => 1                                          -- -1 + 2
+  let start : Nat :=
+    if tag35.isPrefixOf b then 2                         -- bytes_.startswith(b'35=')
+    else match find b (SOH :: tag35) 0 with              -- bytes_.find(SOH + b'35=') + 3
+      | some i => i + 3
+      | none => 2                                        -- -1 + 3
   let end_ : Int := match find b [SOH] start with
     | some e => (e : Int)
     | none => -1
